@@ -938,7 +938,7 @@ func (c *c13Case) check(quiescent bool) {
 					extra["consequence"] = c.demo(o)
 				}
 				c.violation(fp,
-					fmt.Sprintf("sub#%d (group g%d consumer %s epoch %d, accepted by call#%d) is ACTIVE (Closed() open, loop running) but GetGroupConsumer(g%d) = %s with no call in flight: its group entry was removed by somebody else's clean-up (%s), so the next member will not cancel it",
+					fmt.Sprintf("sub#%d (group g%d consumer %s epoch %d, accepted by call#%d) is ACTIVE (Closed() open, loop running) but GetGroupConsumer(g%d) = %s with no call in flight: the partition no longer knows this live subscription (its entry was removed or overwritten without cancelling it; culprit class: %s), so the next member will not cancel it",
 						o.Idx, g, o.call.Cid, o.call.Epoch, o.call.Idx, g, entry, cls), extra)
 				return
 			}
